@@ -39,6 +39,7 @@ STRATA = [
     ("grid4", 1800, 18000),
     ("grid8", 1800, 18000),
     ("scale", 5, 40),
+    ("dense", 3000, 40000),
 ]
 BATCH = {"scale": 1}
 REQUIRED_EVENTS = {"any": ["sp.distance", "sp.path", "sp.infeasible-iff-unreachable", "sp.unbounded-iff-negcycle",
@@ -156,6 +157,17 @@ def _limits(rng, n, edges, s, goals):
 
 
 def gen(stratum, rng, tier):
+    if stratum == "dense":
+        # many arcs per node and widely spread weights: a label is improved again and again while its node waits to be
+        # processed - plenty of relaxations without any negative cycle (and a few graphs that do have one)
+        n = rng.randint(4, 7)
+        m = rng.randint(2 * n * n, 3 * n * n)
+        hi = rng.choice([20, 20, 50, 9])
+        edges = [(rng.randrange(n), rng.randrange(n), rng.randint(0, hi)) for _ in range(m)]
+        if rng.random() < 0.25:
+            k = rng.randrange(len(edges))
+            edges[k] = (edges[k][0], edges[k][1], -rng.randint(1, 5))
+        return {"kind": "dense", "n": n, "edges": edges, "s": rng.randrange(n), "t": rng.randrange(n)}
     if stratum == "scale":
         # a corridor of thousands of nodes with dearer shortcuts (true distances known by construction), and a
         # serpentine grid: shortest paths with thousands of nodes, under the interpreter's default recursion limit
@@ -1078,9 +1090,68 @@ def _run_scale(case, obs):
     return True
 
 
+def _run_dense(case, obs):
+    from vf.common import call, is_crash, status_name
+
+    n, edges, s, t = case["n"], case["edges"], case["s"], case["t"]
+    d, neg = _G.bellman_ford_ref(n, edges, [s])
+    negany = _G.has_negative_cycle(n, edges)
+    wt = {}
+    for u, v, w in edges:
+        wt[(u, v)] = min(w, wt.get((u, v), w))
+    bf, dj, fw = _m["bellman_ford"].bellman_ford, _m["dijkstra"].dijkstra_edges, _m["floyd_warshall"].floyd_warshall
+    for tgt in (None, t):
+        kw = {} if tgt is None else {"target": tgt}
+        r = call(obs, bf, s, list(edges), n, backend="python", budget=20_000_000, what=f"bellman_ford[dense,{kw}]", **kw)
+        if is_crash(r):
+            continue
+        obs.event("dense.judged")
+        st = status_name(r)
+        if neg != (st == "UNBOUNDED"):
+            obs.violate("sp.unbounded-iff-negcycle", f"bellman_ford[dense] start={s} {kw}: status {st}, a negative cycle "
+                        f"{'is' if neg else 'is NOT'} reachable from the start (n={n}, {len(edges)} arcs)")
+            continue
+        if neg:
+            continue
+        if tgt is None:
+            sol = r.solution
+            bad = [v for v in range(n) if d[v] is not None and (not isinstance(sol, dict) or sol.get(v) != d[v])]
+            if st != "OPTIMAL" or bad:
+                obs.violate("sp.distance", f"bellman_ford[dense] start={s}: status {st}, wrong / missing distance for nodes {bad[:4]}")
+        elif d[tgt] is None:
+            if st != "INFEASIBLE":
+                obs.violate("sp.infeasible-iff-unreachable", f"bellman_ford[dense] {s}->{tgt}: status {st}, target unreachable")
+        else:
+            p = r.solution
+            ok = st == "OPTIMAL" and r.objective == d[tgt] and isinstance(p, (list, tuple)) and p and p[0] == s and p[-1] == tgt \
+                and all((a, b) in wt for a, b in zip(p, p[1:])) and sum(wt[(a, b)] for a, b in zip(p, p[1:])) == d[tgt]
+            if not ok:
+                obs.violate("sp.distance", f"bellman_ford[dense] {s}->{tgt}: status {st}, objective {r.objective!r}, shortest distance {d[tgt]}")
+    r = call(obs, fw, n, list(edges), backend="python", budget=40_000_000, what="floyd_warshall[dense]")
+    if not is_crash(r):
+        obs.event("dense.judged")
+        if negany != (status_name(r) == "UNBOUNDED"):
+            obs.violate("sp.unbounded-iff-negcycle", f"floyd_warshall[dense]: status {status_name(r)}, a negative cycle "
+                        f"{'exists' if negany else 'does not exist'}")
+        elif not negany and (not isinstance(r.solution, list) or any(
+                (r.solution[s][v] != d[v]) if d[v] is not None else (r.solution[s][v] != float("inf")) for v in range(n))):
+            obs.violate("sp.matrix-entries", f"floyd_warshall[dense]: row {s} differs from the shortest distances")
+    if all(w >= 0 for _, _, w in edges):
+        r = call(obs, dj, n, list(edges), s, target=t, backend="python", budget=20_000_000, what="dijkstra_edges[dense]")
+        if not is_crash(r):
+            obs.event("dense.judged")
+            st = status_name(r)
+            if (d[t] is None) != (st == "INFEASIBLE") or (d[t] is not None and r.objective != d[t]):
+                obs.violate("sp.distance", f"dijkstra_edges[dense] {s}->{t}: status {st}, objective {r.objective!r}, shortest {d[t]}")
+    return True
+
+
 def run(case, obs):
     obs.mode("exact")
     _SH.reset()
+    if case["kind"] == "dense":
+        obs.nontrivial = _run_dense(case, obs)
+        return
     if case["kind"] == "scale":
         obs.nontrivial = _run_scale(case, obs)
         return
